@@ -3,6 +3,7 @@
 From TV Require Import Base.Prelude Base.Utf8 Base.Winnow Model.Tree Model.Parse Model.Document Model.Encode.
 From TV Require Import Proofs.GrammarBase.
 From TV Require Import Proofs.SpansDefs Proofs.SpansDoc Proofs.SpansDespan Proofs.SpansExact Proofs.SpansReparse.
+From TV Require Import Proofs.SpansNestValue Proofs.SpansNestDoc.
 
 (* 1. every span stored anywhere in a successfully parsed document (key reprs, key decor, value reprs and
       decor, array / inline-table trailing, table spans, array-of-tables spans, document trailing:
@@ -67,3 +68,38 @@ Print Assumptions C14_despan_all.
 Theorem C14_despan_value : forall s v v', value_despan s v = Some v' -> value_nospan v' = true /\ value_spans v' = [].
 Proof. exact despan_value. Qed.
 Print Assumptions C14_despan_value.
+
+(* 3. nesting (`vnest` / `tnest`, Proofs/SpansDefs.v).  Every value returned by `value`: all that an array or a
+      braces-delimited inline table stores (elements, keys, decor, trailing text) lies inside its span; a table
+      made of a dotted key inside braces spans its keys and values; recursively. *)
+Theorem C14_nested_value : forall i v i', value_ i = Ok v i' -> vnest v = true.
+Proof. exact value_nest. Qed.
+Print Assumptions C14_nested_value.
+
+(*    Every parsed document: where a table has a span, the repr of every key holding a value and that value's
+      span lie inside it (table sections, and tables made of dotted keys — whose spans are widened to cover their
+      entries); every value satisfies `vnest`; the elements of an array of tables lie inside the array's span. *)
+Theorem C14_nested : forall s d, parse_document s = POk d -> tnest (doc_root d) = true.
+Proof. exact parse_document_nest. Qed.
+Print Assumptions C14_nested.
+
+(*    ... spelled out: an element of an array lies inside the array's span (with its decor), and is nested itself;
+      a key/value entry of a table with a span lies inside that span *)
+Theorem C14_nested_array_elem : forall vals tr c d a b it,
+  vnest (VArray vals tr c d (Some (a, b))) = true -> In it vals -> item_in a b it = true /\ inest it = true.
+Proof. exact vnest_array_elem. Qed.
+Print Assumptions C14_nested_array_elem.
+Theorem C14_nested_table_entry : forall items d im dt p a b k v,
+  tnest (Tbl items d im dt p (Some (a, b))) = true -> In (k, IValue v) items ->
+  kspan_in a b k = true /\ osp_in a b (value_span v) = true /\ vnest v = true.
+Proof. exact tnest_value_entry. Qed.
+Print Assumptions C14_nested_table_entry.
+
+(*    The stronger reading "a table made of a dotted key lies inside the span of its parent in the tree" is FALSE:
+      `[t.a.q]` makes t.a an implicit super-table, `a.b.y = 2` under `[t]` puts the dotted table b (span 14-21) into
+      it, and a later `[t.a]` header gives t.a the span 22-33.  (The implementation reports the same spans; the
+      C14 oracle reads "child" syntactically, which this document satisfies.) *)
+Theorem C14_dotted_table_inside_parent_refuted :
+  exists s d, parse_document s = POk d /\ dotted_inside (doc_root d) = false /\ tnest (doc_root d) = true.
+Proof. exact dotted_inside_refuted. Qed.
+Print Assumptions C14_dotted_table_inside_parent_refuted.
